@@ -96,6 +96,26 @@ func addTimeIntrinsics(t map[string]intrinsic) {
 
 func addMiscIntrinsics(t map[string]intrinsic) {
 	nop := func(m *Machine, fr *frame, a []Value) Value { return nil }
+	t["maps.clone"] = func(m *Machine, fr *frame, a []Value) Value {
+		itf, ok := a[0].(Iface)
+		var mp *MapV
+		if ok {
+			mp, _ = itf.V.(*MapV)
+		} else {
+			mp, _ = a[0].(*MapV)
+		}
+		if mp == nil {
+			return a[0]
+		}
+		c := &MapV{KT: mp.KT, VT: mp.VT}
+		for _, e := range mp.Entries {
+			c.Entries = append(c.Entries, &mapEntry{K: e.K, V: copyVal(e.V)})
+		}
+		if ok {
+			return Iface{T: itf.T, V: c}
+		}
+		return c
+	}
 	t["runtime.GC"] = nop
 	t["runtime.KeepAlive"] = nop
 	t["runtime.SetFinalizer"] = nop
